@@ -30,6 +30,18 @@ class DecideStream(Stream):
         extra = [{'checker': 'CRegex', 'policies': [pc], 'inquiry': inq_none, 'rxtable': t},
                  {'checker': 'CRegex', 'policies': [pc], 'inquiry': inq_zero, 'rxtable': t},
                  {'checker': 'CRegex', 'policies': [pa, pdn], 'inquiry': inq_none, 'rxtable': t}]
+        # an inquiry-matching rule with an attribute the inquiry's element lacks: unsatisfied, whatever it is compared
+        # with - None included
+        pm = {'uid': 5, 'effect': 'allow', 'subjects': [['r', ['Any']]], 'actions': [['r', ['Any']]],
+              'resources': [['d', [['owner', ['SubjectMatch', 'id']]]]], 'context': [], 'description': None,
+              'tags': ['<', '>']}
+        pmc = dict(pm, uid=6, resources=[['r', ['Any']]], context=[['owner', ['SubjectMatch', 'id']]])
+        qm = {'resource': specs.jv({'owner': None}), 'action': 'read', 'subject': specs.jv({'name': 'guest'}),
+              'context': specs.jv({'owner': None})}
+        qm2 = dict(qm, subject=specs.jv({'name': 'guest', 'id': None}))
+        extra += [{'checker': 'CRules', 'policies': [pm], 'inquiry': qm, 'rxtable': []},
+                  {'checker': 'CRules', 'policies': [pmc], 'inquiry': qm, 'rxtable': []},
+                  {'checker': 'CRules', 'policies': [pm, pmc], 'inquiry': qm2, 'rxtable': []}]
         return extra + [{'checker': 'CRegex', 'policies': [pa], 'inquiry': inq, 'rxtable': t},
                 {'checker': 'CRegex', 'policies': [pa, pd], 'inquiry': inq, 'rxtable': t},
                 {'checker': 'CRegex', 'policies': [], 'inquiry': inq, 'rxtable': t}]
@@ -115,7 +127,7 @@ ASSUME = ['effects / values with user-defined __eq__ are outside the universe']
 
 def main(argv):
     return run_check('C01', [DecideStream()], argv, trusted_base=TRUSTED, assumptions=ASSUME,
-                     translated=('guard', 'checker', 'on_generated'))
+                     translated=('guard', 'checker', 'parser', 'policy', 'on_generated', 'pin_rules', 'pin_util'))
 
 
 if __name__ == '__main__':
